@@ -476,6 +476,15 @@ func (r *rewriter) rewriteIter(c *astutil.Cursor, pkg loader.Pkg) bool {
 			))
 		}
 		return true
+	case *ast.SelectorExpr:
+		// p.MoveNext() with p *co.Iter[T] dereferences p automatically (a defined chan type with methods),
+		// a pointer to the interface seq.Iterator[T] has no methods: (*p).MoveNext()
+		if sel := pkg.TypeInfo().Selections[n]; sel != nil && sel.Kind() == types.MethodVal && sel.Indirect() && len(sel.Index()) == 1 {
+			if ptr, ok := pkg.TypeOf(n.X).(*types.Pointer); ok && r.isIterator(ptr.Elem()) {
+				n.X = &ast.StarExpr{X: n.X}
+			}
+		}
+		return true
 	case *ast.Ident:
 		// an embedded co.Iter[T] is the field Iter (b.Iter, Box{Iter: it}), embedding seq.Iterator[T] instead
 		// (which keeps the promoted MoveNext / Current) makes it the field Iterator: rename the references
